@@ -71,10 +71,42 @@ type LLEnv struct {
 	// side blocks with stores (conditional stores; fewer paths but much heavier solver queries); "off": always fork.
 	// The environment variable VERIF_LLIR_SPEC sets the default.
 	IfConversion string
+	// Replay, when non-nil, makes the run concrete: every nondeterministic value the BPF front end would create
+	// (map contents, clock, environment choices, uninitialised memory) is taken, in order, from a witness.
+	Replay *LLReplay
 	// Cover, when non-nil, records the executed basic blocks as "function:block".
 	Cover map[string]bool
 	// KtimeLog collects the values returned by bpf_ktime_get_ns on this path.
 	KtimeLog []*Term
+}
+
+type LLReplay struct {
+	Vals []WitnessVal
+	q    map[string][]WitnessVal
+}
+
+// fresh creates a nondeterministic value of the BPF environment. In replay mode it is the next witness value with
+// the same tag (per-tag order; the global order may differ when the recorded run merged branches).
+func (r *llRun) fresh(tag string, w int) *Term {
+	rp := r.env.Replay
+	if rp == nil {
+		return r.in.fresh(tag, w)
+	}
+	if rp.q == nil {
+		rp.q = map[string][]WitnessVal{}
+		for _, v := range rp.Vals {
+			rp.q[v.Tag] = append(rp.q[v.Tag], v)
+		}
+	}
+	l := rp.q[tag]
+	if len(l) == 0 {
+		panic(unsupported(fmt.Sprintf("llir: replay diverged: no witness value left for %q", tag)))
+	}
+	rp.q[tag] = l[1:]
+	if l[0].W != w {
+		panic(unsupported(fmt.Sprintf("llir: replay diverged: witness value %q has width %d, run asks %d", tag, l[0].W, w)))
+	}
+	return r.in.tc.Const(l[0].V, w)
 }
 
 func (m *LLMap) hashLike() bool {
@@ -94,7 +126,7 @@ func (r *llRun) choice(tag string) bool {
 	}
 	// a nondeterministic boolean that is part of the witness (not freshInternal: internal symbols are absent from the
 	// solver models the engine evaluates conditions with)
-	return r.in.decide(r.in.fresh(tag, 0))
+	return r.in.decide(r.fresh(tag, 0))
 }
 
 func (r *llRun) ret64(v int64) LLVal { return LLVal{T: r.k(uint64(v), 64)} }
@@ -129,7 +161,7 @@ func (r *llRun) newValObj(m *LLMap, bytes []*Term) *LLObj {
 func (r *llRun) freshValBytes(m *LLMap) []*Term {
 	bs := make([]*Term, m.ValSize)
 	for i := range bs {
-		bs[i] = r.in.fresh(fmt.Sprintf("%s#%d.val[%d]", m.Name, m.nFresh+1, i), 8)
+		bs[i] = r.fresh(fmt.Sprintf("%s#%d.val[%d]", m.Name, m.nFresh+1, i), 8)
 	}
 	return bs
 }
@@ -450,7 +482,7 @@ func (r *llRun) helper(name string, a []LLVal, ins *LLInstr) LLVal {
 		if r.env.Now != nil {
 			t = r.env.Now
 		} else {
-			t = in.fresh("ktime", 64)
+			t = r.fresh("ktime", 64)
 			if r.lastKt != nil {
 				in.assume(tc.Cmp(OpULe, r.lastKt, t))
 			}
@@ -537,7 +569,7 @@ func (r *llRun) helper(name string, a []LLVal, ins *LLInstr) LLVal {
 	case "bpf_get_smp_processor_id":
 		return LLVal{T: r.k(0, 32)}
 	case "bpf_get_prandom_u32":
-		return LLVal{T: in.fresh("prandom", 32)}
+		return LLVal{T: r.fresh("prandom", 32)}
 	case "bpf_csum_diff":
 		need(5)
 		fromN, toN := int(conc(a[1], "from_size")), int(conc(a[3], "to_size"))
